@@ -5,7 +5,7 @@ import pathops
 from picosvg import svg_pathops
 from picosvg.svg_types import SVGPath
 from common import *
-import geom
+import geom, pathsem
 from skia_oracle import skia_oracle
 
 COQ_TARGETS = ['props/C13.vo']
@@ -17,6 +17,8 @@ TRUSTED = ["model/Skia.v: hand model of svg_pathops.py's wrapper logic (which ca
            "tools/skia_oracle.py: answers the model's engine calls by calling skia-pathops directly",
            "THE ENGINE CONTRACT (proofs/E5_pathops.v hypotheses op_contract, simplify_contract): assumed, sampled by exact winding numbers"]
 ASSUMES = ["Skia computes the set operation of the operands' interiors (sampled outside a 0.4% band, not proved)"]
+
+ENGINE_FAILS = ['M7,7 C4,10 10,0 7,6 L5,0 C9,9 8,1 4,9 C7,2 9,8 9,9 Q8,10 1,3 Z']
 
 def poly(rng):
     k = rng.random()
@@ -80,6 +82,35 @@ def corr(ctx):
             stats['samples'].append({'op': op, 'operands': show(operands), 'impl': show(impl)})
         if not same:
             stats['disagreements'].append({'what': f'{op}: model and implementation differ', 'input': jsonable([op, operands]),
+                                           'impl': jsonable(impl), 'model': jsonable(mod)})
+            if len(stats['disagreements']) >= 10: break
+    # paths the engine is known to give up on: the wrappers must report the failure, not return something
+    for d in ENGINE_FAILS:
+        ops = [[c, [F(x) for x in a]] for c, a in pathsem.parse_simple(d)]
+        for rule in (False, True):
+            impl = impl_pathop('remove_overlaps', [(ops, rule)])
+            mod = m.call('remove_overlaps', [ops, rule])
+            stats['evaluations'] += 1
+            stats['distribution']['engine_failure_corpus'] = stats['distribution'].get('engine_failure_corpus', 0) + 1
+            if canon(impl) != canon(mod):
+                stats['disagreements'].append({'what': 'remove_overlaps on a path the engine cannot simplify: model and implementation differ', 'input': jsonable(['remove_overlaps', d, rule]),
+                                               'impl': jsonable(impl), 'model': jsonable(mod)})
+    # the shape-level wrappers of svg_types take each operand under its clip-rule (not its fill-rule)
+    from picosvg import svg_types
+    for i in range(ctx.n(120, 2000)):
+        op = rng.choice(['union', 'intersection', 'difference'])
+        n = rng.randint(1, 3)
+        operands = [(poly(rng), rng.random() < 0.5, rng.random() < 0.5) for _ in range(n)]      # (commands, clip evenodd, fill evenodd)
+        shapes = [SVGPath(d=pathsem.fmt([(c, a) for c, a in p]), clip_rule='evenodd' if ce else 'nonzero', fill_rule='evenodd' if fe else 'nonzero') for p, ce, fe in operands]
+        try: impl = ['ok', [[c, [F(x) for x in a]] for c, a in getattr(svg_types, op)(shapes)]]
+        except pathops.PathOpsError: impl = ['err', 'Other']
+        except ValueError: impl = ['err', 'ValueError']
+        mod = m.call('do_pathop', [op, [[p, ce] for p, ce, _ in operands]])
+        stats['evaluations'] += 1
+        stats['distribution'][f'svg_types.{op}'] = stats['distribution'].get(f'svg_types.{op}', 0) + 1
+        if any(ce != fe for _, ce, fe in operands) and impl[0] == 'ok': stats['nontrivial'].add(json.dumps(jsonable(['wrapper', op, operands])))
+        if canon(impl) != canon(mod):
+            stats['disagreements'].append({'what': f'svg_types.{op}: the operands must be taken under their clip-rule', 'input': jsonable(['svg_types.' + op, operands]),
                                            'impl': jsonable(impl), 'model': jsonable(mod)})
             if len(stats['disagreements']) >= 10: break
     return stats
